@@ -1,7 +1,7 @@
 (* C20 — non-vacuity: concrete inputs meeting the hypotheses of every theorem of
    Props/C20.v, with non-trivial outputs (all by vm_compute). *)
 From Coq Require Import List ZArith NArith Bool Lia.
-From TskVerif Require Import Base.Common C20.Model C20.Spec C20.HartiganProofs C20.FixProofs C20.Refuted.
+From TskVerif Require Import Base.Common Gen.Generated C20.Model C20.Spec C20.HartiganProofs C20.FixProofs C20.Refuted.
 Import ListNotations.
 Open Scope Z_scope.
 
@@ -75,3 +75,22 @@ Example mm_fixed_on_f2 :
   mm_rose_fixed 2 f2_roots None = Some (0%N, [(3, -1, 1%N)]) /\
   mm_rose_fixed 2 f2u_roots None = Some (0%N, [(2, -1, 1%N)]).
 Proof. vm_compute. split; reflexivity. Qed.
+
+(* c_map_mutations_eq_rose_partial: all hypotheses hold on the arrays of the F2 tree with
+   genotypes [0,1,1,2] and a fixed ancestral state, and both sides are a non-trivial result *)
+Example c_map_mutations_eq_rose_nonvacuous :
+  let g := [0; 1; 1; 2] in
+  exists os0 roots,
+    init_sets false (ta_samples f2_arrays) g (repeat 0%N (S (length (ta_flags f2_arrays)))) 0 0 = Ok (os0, 2, 4) /\
+    rose_of_arrays f2_arrays g = Ok roots /\
+    forallb (init_okb false os0) roots = true /\
+    get os0 (zlen (ta_flags f2_arrays)) = Ok 0%N /\
+    postorder_from_virtual_root f2_arrays = Ok (flat_map post_ids roots ++ [zlen (ta_flags f2_arrays)]) /\
+    nodupb (forest_ids roots) = true /\
+    (fsize roots <? length (ta_left_child f2_arrays))%nat = true /\
+    forallb (sets_nonzero (Z.to_nat (final_num_alleles 2 (Some 1)))) roots = true /\
+    c_map_mutations_gen false f2_arrays g (Some 1) = Ok (1, [(4, -1, 0%N); (3, 0, 2%N); (2, 1, 1%N); (1, 1, 1%N)]) /\
+    l2_side_conditions false f2_arrays g = true.
+Proof.
+  eexists. eexists. vm_compute. repeat split; reflexivity.
+Qed.
